@@ -1,3 +1,7 @@
 import Cql.Audit
 import Cql.Props.C07
+import Cql.Props.C06AsWritten
+import Cql.Props.C07AsWritten
 #audit_namespace Cql.Props.C07
+#audit_namespace Cql.Props.C06AsWritten
+#audit_namespace Cql.Props.C07AsWritten
